@@ -10,7 +10,7 @@ ASSUMPTIONS = ['graph structure concrete per query; per-node queries (cone of in
 
 def queries(tier, kfs):
     qs = []
-    structs = [(1, 3, 2, 1, 1, (0, 1, 2)), (2, 4, 2, 1, 0, (1, 3)), (3, 4, 2, 0, 0, (1, 3)), (4, 4, 2, 1, 1, (2, 3))]
+    structs = [(1, 3, 2, 1, 1, (0, 1, 2)), (2, 4, 2, 1, 0, (1,)), (3, 4, 2, 0, 0, (1,)), (4, 4, 2, 1, 1, (2, 3))]
     if tier != 'quick':
         structs = [(1, 3, 2, 1, 1, (0, 1, 2)), (2, 4, 2, 1, 0, (0, 1, 2, 3)), (3, 4, 2, 0, 0, (0, 1, 2, 3)), (4, 4, 2, 1, 1, (0, 1, 2, 3))]
     for (sid, n, d, single, kscalar, nodes) in structs:
